@@ -125,7 +125,8 @@ class Fmt:
         if k == "box":
             return F(t[1])
         if k == "rand":
-            return "rand_%s#%x" % (t[1], hash(t[2]) & 0xffff)
+            ix = "".join("[%s]" % self.f(x, d + 1) for x in t[3]) if len(t) > 3 else ""
+            return "rand_%s#%x%s" % (t[1], hash(t[2]) & 0xffff, ix)
         if k == "call":
             return "%s(%s)" % (t[1].split("::")[-1], ", ".join(F(x) for x in t[2]))
         if k == "const":
